@@ -37,6 +37,7 @@ class System:
     def __init__(self):
         self.domains, self.strands, self.complexes, self.macrostates, self.reactions = {}, {}, {}, {}, []
         self.order = []          # statements in a declaration-respecting order: (kind, name/index)
+        self.hints = {}          # complex name -> how it is written (strand notation / composite names)
 
 
 def rotations(seq, struct):
@@ -85,7 +86,12 @@ def canon(seq, struct):
     return min((tuple(s), tuple(t)) for s, t in rotations(seq, struct))
 
 
-def make_system(rng, n_dom=4, n_cplx=4, n_strands=2, n_macro=2, n_rxn=3, sizes=(1, 8)):
+def make_system(rng, n_dom=4, n_cplx=4, n_strands=2, n_macro=2, n_rxn=3, sizes=(1, 8),
+                p_strand_notation=0.0, p_composite=0.0):
+    """p_strand_notation: probability that a complex without empty strands is declared through named strands
+    (`structure` / `complex` statements); p_composite: probability that a kernel-notation complex is written
+    with composite-domain names (runs of unpaired domains, runs of complements, nested helices).  Both add
+    the strand declarations they need.  With both 0 the random stream is the one of earlier versions."""
     S = System()
     used = set()
     for _ in range(n_dom):
@@ -99,13 +105,13 @@ def make_system(rng, n_dom=4, n_cplx=4, n_strands=2, n_macro=2, n_rxn=3, sizes=(
         S.order.append(("domain", n))
     dnames = list(S.domains)
     anydom = lambda: rng.choice(dnames) + ("*" if rng.random() < 0.3 else "")
-    seen_strands = set()
+    seen_strands = {}
     for _ in range(n_strands):
         n = ident(rng, used, "s")
         sq = [anydom() for _ in range(rng.randrange(1, 4))]
         if tuple(sq) in seen_strands:
             continue
-        seen_strands.add(tuple(sq))
+        seen_strands[tuple(sq)] = n
         S.strands[n] = sq
         S.order.append(("strand", n))
     seen = set()
@@ -122,7 +128,17 @@ def make_system(rng, n_dom=4, n_cplx=4, n_strands=2, n_macro=2, n_rxn=3, sizes=(
         conc = None
         if rng.random() < 0.4:
             conc = (rng.choice(["initial", "constant"]), rng.choice([0, 5, 100, 2.5, 1e-3, 12.75]), rng.choice(CUNITS))
-        S.complexes[n] = (sq, list(st), conc, "kernel")
+        notation = "kernel"
+        if p_strand_notation and nonempty_strands(sq) and rng.random() < p_strand_notation:
+            notation, conc = "strand", None          # the strand notations have no concentration field
+            S.hints[n] = {"strands": [strand_for(S, rng, used, seen_strands, part) for part in split_strands(sq)],
+                          "style": rng.choice(["structure", "complex"])}
+        elif p_composite and rng.random() < p_composite:
+            subs = composite_cover(S, rng, used, seen_strands, sq, list(st))
+            if subs:
+                notation = "kernel+composite"
+                S.hints[n] = {"subs": subs}
+        S.complexes[n] = (sq, list(st), conc, notation)
         S.order.append(("complex", n))
     cn = list(S.complexes)
     seen_m = set()
@@ -171,6 +187,101 @@ def kernel_string(seq, struct):
     return " ".join(out)
 
 
+
+def split_strands(seq):
+    out, cur = [], []
+    for x in seq:
+        if x == "+":
+            out.append(cur); cur = []
+        else:
+            cur.append(x)
+    out.append(cur)
+    return out
+
+
+def nonempty_strands(seq):
+    return all(split_strands(seq))
+
+
+def strand_for(S, rng, used, seen_strands, part):
+    """the name of the strand with this domain sequence, declared now if it does not exist yet
+    (two strands with one sequence would be the same singleton under two names)"""
+    key = tuple(part)
+    if key not in seen_strands:
+        n = ident(rng, used, "s")
+        seen_strands[key] = n
+        S.strands[n] = list(part)
+        S.order.append(("strand", n))
+    return seen_strands[key]
+
+
+def composite_cover(S, rng, used, seen_strands, sq, st):
+    """substitutions (start, length, token, kind) that write parts of a kernel string with composite-domain
+    names: kind 'run' = unpaired run written as the composite name, 'crun' = unpaired run written as the
+    complement name, 'helix' = k directly nested pairs written as name( ... ) """
+    pairs = {}
+    for i, j in gs.pair_positions("".join(st)):
+        pairs[i] = j
+    subs, i, n = [], 0, len(sq)
+    while i < n:
+        if st[i] == "." and rng.random() < 0.6:
+            j = i
+            while j < n and st[j] == "." and j - i < 3:
+                j += 1
+            k = rng.randrange(1, j - i + 1)
+            part = sq[i:i + k]
+            if rng.random() < 0.5:
+                subs.append((i, k, strand_for(S, rng, used, seen_strands, part), "run"))
+            else:
+                subs.append((i, k, strand_for(S, rng, used, seen_strands, [comp(d) for d in reversed(part)]) + "*", "crun"))
+            i += k
+        elif st[i] == "(" and rng.random() < 0.6:
+            k = 1
+            while i + k < n and st[i + k] == "(" and pairs[i + k] == pairs[i] - k and k < 3:
+                k += 1
+            k = rng.randrange(1, k + 1)
+            part = sq[i:i + k]
+            # the closing side must be the reversed complements (it is, for domain-level complementary pairs)
+            if [comp(d) for d in reversed(part)] == sq[pairs[i] - k + 1:pairs[i] + 1]:
+                subs.append((i, k, strand_for(S, rng, used, seen_strands, part), "helix"))
+            i += k
+        else:
+            i += 1
+    return subs
+
+
+def kernel_string_with(seq, struct, subs):
+    """kernel string in which the substituted stretches are written with their composite names"""
+    start = {s[0]: s for s in subs}
+    skip_close = set()
+    pairs = dict(gs.pair_positions("".join(struct)))
+    out, i = [], 0
+    while i < len(seq):
+        if i in start:
+            _, k, tok, kind = start[i]
+            if kind == "helix":
+                out.append(tok + "(")
+                # the k closing brackets collapse into one
+                for t in range(1, k):
+                    skip_close.add(pairs[i + t])
+            else:
+                out.append(tok)
+            i += k
+            continue
+        d, s = seq[i], struct[i]
+        if s == "+":
+            out.append("+")
+        elif s == ")":
+            if i not in skip_close:
+                out.append(")")
+        elif s == "(":
+            out.append(d + "(")
+        else:
+            out.append(d)
+        i += 1
+    return " ".join(out)
+
+
 def fmt_num(x):
     if isinstance(x, int):
         return str(x)
@@ -204,7 +315,17 @@ def render_stmt(S, item, rng=None, layout=False):
         return f"{kw}{sp()}{key}{sp()}{eq()}{sp()}" + sp().join(S.strands[key])
     if kind == "complex":
         sq, st, conc, notation = S.complexes[key]
-        txt = f"{key}{sp()}={sp()}{kernel_string(sq, st)}"
+        hint = S.hints.get(key, {})
+        if notation == "strand":
+            db = "".join(st)
+            if layout and rng and rng.random() < 0.5:
+                db = db.replace("+", " + ")
+            if hint["style"] == "structure":
+                return (f"structure{sp()}{key}{sp()}{eq()}{sp()}" + f"{sp()}+{sp()}".join(hint["strands"]) +
+                        f"{sp()}{eq()}{sp()}{db}")
+            return f"complex{sp()}{key}{sp()}{eq()}\n" + sp().join(hint["strands"]) + f"\n{db}"
+        ks = kernel_string_with(sq, st, hint["subs"]) if notation == "kernel+composite" else kernel_string(sq, st)
+        txt = f"{key}{sp()}={sp()}{ks}"
         if conc:
             txt += f"{sp()}@{conc[0]}{sp()}{fmt_num(conc[1])}{sp()}{conc[2]}"
         return txt
@@ -262,6 +383,9 @@ def shuffled_order(S, rng):
             deps[item] = [("domain", d.rstrip("*")) for d in S.strands[key]]
         elif kind == "complex":
             deps[item] = [("domain", d.rstrip("*")) for d in S.complexes[key][0] if d != "+"]
+            hint = S.hints.get(key, {})
+            deps[item] += [("strand", s) for s in hint.get("strands", [])]
+            deps[item] += [("strand", t[2].rstrip("*")) for t in hint.get("subs", [])]
         elif kind == "macrostate":
             deps[item] = [("complex", c) for c in S.macrostates[key]]
         else:
